@@ -225,3 +225,36 @@ def paste_item(text, cut, ctx):
 
 def zo_files(root: Path) -> list[Path]:
     return sorted(p for p in root.rglob("*.zo") if ".zorg" not in p.parts)
+
+
+def evolve_files(root: Path, rng: random.Random, allow_delete_page: bool = True) -> list[str]:
+    """Edits a notes directory the way a user would between two reindex runs (remove links / tags /
+    whole notes, edit bodies, maybe delete a page).  Returns a log.  The caller runs `db reindex`
+    afterwards: the index then is an *incrementally updated* one (orphan rows, reused ids, …)."""
+    log = []
+    ctx = Ctx(rng)
+    pages = zo_files(root)
+    if allow_delete_page and len(pages) > 2 and rng.random() < 0.3:
+        p = pages.pop()
+        p.unlink()
+        log.append(f"delete {p.name}")
+    for p in pages:
+        t = p.read_text()
+        if rng.random() < 0.6:
+            t = re.sub(r" \[\[[^\]\n]*\]\]", "", t, count=rng.randint(1, 4))
+            log.append(f"unlink in {p.name}")
+        if rng.random() < 0.4:
+            t = re.sub(r" [#@%+][A-Za-z_][A-Za-z_0-9]*", "", t, count=rng.randint(1, 3))
+            log.append(f"untag in {p.name}")
+        if rng.random() < 0.3:
+            t2 = op_delete_note(t, ctx, None)
+            if t2 is not None:
+                t = t2
+                log.append(f"delete note in {p.name}")
+        if rng.random() < 0.4:
+            t2 = op_edit_body(t, ctx, None)
+            if t2 is not None:
+                t = t2
+                log.append(f"edit body in {p.name}")
+        p.write_text(t)
+    return log
